@@ -16,12 +16,17 @@ CONSTANTS
   Edges = TRUE
   KSps = {"lower"}
   MKs = {"k"}
+  Unit = 2
+  Multi = FALSE
+  XVs = {"one"}
   Depth = 1
   Emit = FALSE
   DropOnRebuild = FALSE
   CanonBang = FALSE
   WideParse = TRUE
   MapAsStruct = FALSE
+  RoundFirst = FALSE
+  IndexFirst = FALSE
 INVARIANTS InvNoPanic InvCompleteness InvSoundness InvValues InvHistoryIndependent InvClassesDisjoint
 VIEW GView
 CHECK_DEADLOCK FALSE
